@@ -6,7 +6,8 @@ import z3
 from vk.report import EncodingGap
 from vk.pysym.interp import Machine, Name, SetRef, Tup, DictRef, ObjRef, b_and, b_or, b_not, zbool, zint, is_z3
 
-SRC = "/repo/src/pymoca/backends/casadi/alias_relation.py"
+from vk.paths import REPO
+SRC = REPO + "/src/pymoca/backends/casadi/alias_relation.py"
 CLASS = "AliasRelation"
 F_AL, F_MAP, F_CAN = "_aliases", "_canonical_variables_map", "_canonical_variables"
 
